@@ -480,6 +480,22 @@ def replay(hosts: dict, beh: dict, check: set[str]) -> tuple[list, int]:
                     for sj in sc:
                         if sj['kind'] == 'rep':
                             raw_ids |= {id(x) for x in getattr(m, sj['name'])}
+                    for sj in sc:
+                        if sj['kind'] != 'rep':
+                            continue
+                        desc = next((vars(k)[sj['name']] for k in type(m).__mro__ if sj['name'] in vars(k)), None)
+                        if type(desc).__name__ == 'repeated_node_with_interleaving_comments_property':
+                            # the field still is a list with interleaving comments: the attribution calls exist and
+                            # (being no edits) leave the text alone
+                            w = getattr(m, sj['name'])
+                            t0 = tree.text_of(f)
+                            try:
+                                w.unclaim_interleaving_comments()
+                                w.claim_interleaving_comments()
+                            except AttributeError as e:
+                                add('views', ev, f'{sj["name"]} lost its attribution calls: {e}')
+                            if tree.text_of(f) != t0:
+                                add('views', ev, f'unclaim + claim on {sj["name"]} changed the text')
                     for vn in views:
                         mem = list(getattr(m, vn))
                         rep3 = list(getattr(m3, vn))
